@@ -37,3 +37,21 @@ Proof.
          1%Z, 3%Z, 0%Z, 0%Z. vm_compute. split; reflexivity.
 Qed.
 Print Assumptions C03_negative_data_refuted.
+
+(* Known finding D13 as a formal witness: with the gain-offset model a jointly valid pixel of POSITIVE data whose kernel window holds a
+   single jointly valid pixel (here: its two neighbours are invalid in the source) has no least-squares solution - the denominator
+   N * Sxx - Sx^2 is 0 - so it receives no finite gain and is invalid in the corrected image although source and reference are valid there. *)
+Theorem C03_gain_offset_degenerate_window_refuted :
+  exists b kh kw i j, jmask b i j = true /\ (0 < sv b i j)%Q /\ (0 < rv b i j)%Q /\ go_den (ksums b kh kw i j) == 0 /\ go_m (ksums b kh kw i j) = NonFin.
+Proof.
+  exists {| bH := 1; bW := 3; sv := fun _ _ => 7; rv := fun _ _ => 5; sm := fun u v => (v =? 1)%Z; rm := fun _ _ => true |}, 1%Z, 3%Z, 0%Z, 1%Z.
+  vm_compute. repeat split; reflexivity.
+Qed.
+(* ... and a constant source does the same for any number of valid pixels *)
+Theorem C03_gain_offset_constant_source_refuted :
+  exists b kh kw i j, jmask b i j = true /\ sN (ksums b kh kw i j) == 3 /\ go_m (ksums b kh kw i j) = NonFin.
+Proof.
+  exists {| bH := 1; bW := 3; sv := fun _ _ => 7; rv := fun u v => inject_Z v + 2; sm := fun _ _ => true; rm := fun _ _ => true |}, 1%Z, 3%Z, 0%Z, 1%Z.
+  vm_compute. repeat split; reflexivity.
+Qed.
+Print Assumptions C03_gain_offset_degenerate_window_refuted.
